@@ -138,7 +138,7 @@ func consumerFields(c *core.Ctx) map[string]bool {
 }
 
 func C09(c *core.Ctx) {
-	c.Explanation("C09: for every sequence of a bounded family (all length-4 sequences over {A,C,G,N} against an all-A reference, in batches of several records) the interpreted pipeline getLines -> updown.writeOutput (the CSV text it writes, split on commas) -> readCSVToUDLList / readCSVToUDLChan must reproduce the record getLines produced, on every field that the ranking code reads (the set of fields read is computed from the SSA of pkg/updown's consumers), including the query's input index; this decides the writer/reader schema agreement (header, column positions, '|' and '-' separators, a / a-b ranges, SNP position parsing) and the producer/consumer field agreement. The CSV header check and the empty-file check of both readers; FASTA paths: target conversion re-ordered by input index, query conversion not a pool, results stored by query index.")
+	c.Explanation("C09: for every sequence of a bounded family (all length-4 sequences over {A,C,G,T,N} against the reference TGCA, in batches of several records) the interpreted pipeline getLines -> updown.writeOutput (the CSV text it writes, split on commas) -> readCSVToUDLList / readCSVToUDLChan must reproduce the record getLines produced, on every field that the ranking code reads (the set of fields read is computed from the SSA of pkg/updown's consumers), including the query's input index; this decides the writer/reader schema agreement (header, column positions, '|' and '-' separators, a / a-b ranges, SNP position parsing) and the producer/consumer field agreement. The CSV header check and the empty-file check of both readers; FASTA paths: target conversion re-ordered by input index, query conversion not a pool, results stored by query index.")
 	ev0 := newEval(c)
 	tabs := extractTables(c, ev0, "R0")
 	if !tabs.OK {
@@ -167,17 +167,19 @@ func C09(c *core.Ctx) {
 		}
 		return eval.NewSlice(vs...)
 	}
-	seqs := allStringsExact("ACGN", 4)
+	// the reference has a different base at every position, so that the lexical order of a record's
+	// SNP strings differs from their positional order for many records
+	seqs := allStringsExact("ACGTN", 4)
 	if c.Tier != "thorough" {
 		var s2 []string
 		for i, s := range seqs {
-			if i%2 == 0 || strings.Contains(s, "N") {
+			if i%3 == 0 || strings.Contains(s, "N") {
 				s2 = append(s2, s)
 			}
 		}
 		seqs = s2
 	}
-	ref := "AAAA"
+	ref := "TGCA"
 	const batch = 6
 	var badList, badChan, badSchema []string
 	n := 0
@@ -258,7 +260,7 @@ func C09(c *core.Ctx) {
 	c.Ob("R2/csv-schema/readers-accept-writer-output", len(badSchema) == 0, wo.Pos(), "%s", first(badSchema, 3))
 	c.Ob("R1/field-agreement/readCSVToUDLList", len(badList) == 0, funcPos(c, "pkg/updown", "readCSVToUDLList"), "%s", first(badList, 4))
 	c.Ob("R1/field-agreement/readCSVToUDLChan", len(badChan) == 0, funcPos(c, "pkg/updown", "readCSVToUDLChan"), "%s", first(badChan, 4))
-	c.Sample(map[string]string{"rule": "R1/R2", "sequence": "ACNN vs AAAA", "csv_row": "id,A2C,3-4,1,2", "compared_fields": strings.Join(readList, ",")})
+	c.Sample(map[string]string{"rule": "R1/R2", "sequence": "CANN vs TGCA", "csv_row": "id,T1C|G2A,3-4,2,2", "compared_fields": strings.Join(readList, ",")})
 	// R4 ordering of the FASTA paths
 	p := facts(c)
 	for _, name := range []string{"fastaToUDLList", "readFastaToUDLChan"} {
